@@ -27,7 +27,7 @@ from olvc.evaluator import Machine
 from olvc.interp import HFn, IGen, IRaise, IStop
 from olvc.oblig import paths_or_undecided
 from olvc.runner import explore
-from olvc.sym import Opaque, Seg, SInt, ctx, tagstr, zint
+from olvc.sym import Opaque, Seg, SInt, Unsupported, ctx, tagstr, zint
 from olvc.tmpl import Hole
 from spec import control, target_lang as TL
 from suites import c13
@@ -233,6 +233,56 @@ def g_iter_branch_steps(R, tier):
         return
     for_loop, while_loop = loops
 
+    # The loop state is found in the code, not assumed by name: the pre-block (everything
+    # before the first loop) is RUN, and the roles are read off the resulting locals --
+    #   groups   the list the second loop tests (`while len(groups) > 1`)
+    #   aliases  every other local that IS the top group (e.g. `converting`), possibly none
+    #   counter  the local that holds the value get_interrupt_cnt() returned at entry
+    pre_block = fnode.body[: fnode.body.index(for_loop)]
+    params = [a.arg for a in fnode.args.args]
+    if len(params) != 5:
+        R.undecided(base + "/shape", f"expected (self, converted_branch, branch, get_interrupt_cnt, get_flow_control_expr), found {params}")
+        return
+    P_SELF, P_OUT, P_BRANCH, P_CNT, P_FLAG = params
+
+    def _test_name(e):
+        called = {id(n_.func) for n_ in ast.walk(e) if isinstance(n_, ast.Call)}
+        for n_ in ast.walk(e):
+            if isinstance(n_, ast.Name) and id(n_) not in called:  # (not the `len` of `len(groups)`)
+                return n_.id
+        return None
+    GROUPS_VAR = _test_name(while_loop.test)
+    TARGET = for_loop.target.id if isinstance(for_loop.target, ast.Name) else None
+    if not GROUPS_VAR or not TARGET:
+        R.undecided(base + "/shape", "cannot identify the group stack / loop target in the code")
+        return
+
+    class HarnessGap(Exception):
+        pass
+
+    def enter(m, self_, cnt_fn, flag_fn, node):
+        """run the real pre-block; -> (frame, counter variable name, alias names)"""
+        entry_cnt = SInt(z3.Int("entry-counter"))
+        first = [True]
+
+        def counter():
+            if first[0]:
+                first[0] = False
+                return entry_cnt
+            return cnt_fn()
+        fr = Frame(ifn, {P_SELF: self_, P_OUT: [], P_BRANCH: [node] if node is not None else [], P_CNT: HFn(counter), P_FLAG: HFn(flag_fn)},
+                   ifn.globals, [], name="_iter_branch")
+        m.run(m.exec_block(pre_block, fr))
+        first[0] = False
+        groups = fr.locals.get(GROUPS_VAR)
+        if not (isinstance(groups, list) and len(groups) == 1 and isinstance(groups[0], list) and groups[0] == []):
+            raise HarnessGap(f"{GROUPS_VAR} is not one empty group at loop entry: {groups!r}")
+        aliases = [k for k, v_ in fr.locals.items() if v_ is groups[0] and k != GROUPS_VAR]
+        counters = [k for k, v_ in fr.locals.items() if v_ is entry_cnt]
+        if len(counters) != 1:
+            raise HarnessGap(f"cannot identify the remembered counter (locals holding the entry value: {counters})")
+        return fr, counters[0], aliases
+
     # ---- loop 1: one element from an arbitrary state -----------------------------------
     for pending in (False, True):           # did the counter grow since the last split?
         for kind in ("plain", "M", "D"):
@@ -243,13 +293,20 @@ def g_iter_branch_steps(R, tier):
                 lower = Opaque("lower-groups", object)
                 prev = CL.absnode(("R", "prev"), ("R", "prev"))
                 top = [prev]
-                stack = [lower, top]
                 init = z3.Int("init")
                 cnt = {"t": init + 1 if pending else init}
                 node = plain_stmt("x") if kind != "D" else ast.Break()
-                fr = Frame(ifn, dict(self=self_, converting=top, stack=stack, initial_interrupt_cnt=SInt(init), node=node,
-                                     get_interrupt_cnt=HFn(lambda: SInt(cnt["t"])), get_flow_control_expr=HFn(lambda: None),
-                                     branch=[node], converted_branch=[]), ifn.globals, [], name="_iter_branch")
+                try:
+                    fr, CNT_VAR, aliases = enter(m, self_, lambda: SInt(cnt["t"]), lambda: None, node)
+                except HarnessGap as e:
+                    raise Unsupported(f"loop state not identified: {e}")
+                # the generic state: some lower groups, a current group holding what was converted so far
+                stack = fr.locals[GROUPS_VAR]
+                stack[:] = [lower, top]
+                for a_ in aliases:
+                    fr.locals[a_] = top
+                fr.locals[CNT_VAR] = SInt(init)
+                fr.locals[TARGET] = node
                 gen = m.exec_block(for_loop.body, fr)
                 y = next(gen)
                 if kind != "plain":
@@ -260,7 +317,8 @@ def g_iter_branch_steps(R, tier):
                     sig = "no-stop"
                 except StopIteration as e:
                     sig = e.value
-                return dict(y=y, node=node, stack=stack, top=top, lower=lower, prev=prev, r=r, fr=fr.locals, sig=sig, init=init, cnt=cnt["t"])
+                return dict(y=y, node=node, stack=stack, top=top, lower=lower, prev=prev, r=r, fr=fr.locals, sig=sig, init=init, cnt=cnt["t"],
+                            aliases=aliases, cnt_var=CNT_VAR)
             paths = explore(run)
             nm = f"{base}-for[{'counter-grew' if pending else 'counter-unchanged'},{kind}]"
             if not paths_or_undecided(R, nm + "/paths", paths):
@@ -274,18 +332,18 @@ def g_iter_branch_steps(R, tier):
                 R.check(f"{nm}/requests-exactly-this-statement", v["y"] is v["node"], repr(v["y"]))
                 if pending:
                     ok = len(st) == 3 and st[0] is v["lower"] and st[1] is v["top"] and st[1] == [v["prev"]] and st[2] == v["r"] \
-                        and v["fr"]["converting"] is st[2]
+                        and all(v["fr"][a_] is st[2] for a_ in v["aliases"])
                     R.check(f"{nm}/new-group-started-after-an-interrupting-statement", ok, repr(st))
                 else:
                     # joining the current group or opening a new one are both correct here
                     # (needless nesting is a C17 matter); the statement must come last
-                    joined = len(st) == 2 and st[1] is v["top"] and st[1] == [v["prev"]] + v["r"] and v["fr"]["converting"] is st[1]
-                    opened = len(st) == 3 and st[1] is v["top"] and st[1] == [v["prev"]] and st[2] == v["r"] and v["fr"]["converting"] is st[2]
+                    joined = len(st) == 2 and st[1] is v["top"] and st[1] == [v["prev"]] + v["r"] and all(v["fr"][a_] is st[1] for a_ in v["aliases"])
+                    opened = len(st) == 3 and st[1] is v["top"] and st[1] == [v["prev"]] and st[2] == v["r"] and all(v["fr"][a_] is st[2] for a_ in v["aliases"])
                     R.check(f"{nm}/statement-placed-after-everything-before-it", joined or opened, repr(st))
                 # the split is re-armed exactly when this statement may interrupt
                 sym.set_ctx(p.ctx)
                 try:
-                    newinit = v["fr"]["initial_interrupt_cnt"]
+                    newinit = v["fr"][v["cnt_var"]]
                     rearmed, _ = p.ctx.valid(v["cnt"] > zint(newinit))
                     settled, _ = p.ctx.valid(v["cnt"] == zint(newinit))
                     R.check(f"{nm}/next-statement-splits-iff-this-one-may-interrupt", rearmed if kind != "plain" else settled,
@@ -302,11 +360,16 @@ def g_iter_branch_steps(R, tier):
         lower = CL.seg("lower", lambda t: Opaque(t, object))
         a0, b0 = CL.absnode(("R", "a"), ("R", "a")), CL.absnode(("R", "b"), ("R", "b"))
         A, B = [a0], [b0]
-        stack = [lower, A, B]
         calls = []
         flag = lambda: (calls.append(1), CL.absnode(("flag", "F"), ("flag", "F")))[1]
-        fr = Frame(ifn, dict(self=self_, stack=stack, get_flow_control_expr=HFn(flag), converted_branch=[], converting=B,
-                             branch=[], get_interrupt_cnt=HFn(lambda: 0), initial_interrupt_cnt=0), ifn.globals, [], name="_iter_branch")
+        try:
+            fr, CNT_VAR, aliases = enter(m, self_, lambda: 0, flag, None)
+        except HarnessGap as e:
+            raise Unsupported(f"loop state not identified: {e}")
+        stack = fr.locals[GROUPS_VAR]
+        stack[:] = [lower, A, B]
+        for a_ in aliases:
+            fr.locals[a_] = B
         sig = m.run(m.exec_block(while_loop.body, fr))
         return dict(stack=stack, A=A, B=B, a0=a0, b0=b0, lower=lower, calls=len(calls))
     paths = explore(run2)
